@@ -246,40 +246,53 @@ def _up_conn(h, handler):
     return None
 
 
-def run_relay(case):
-    """drive one real handler through case['events']; returns observations + the oracles seen at handle_data"""
-    from proxy.http.parser import httpParserStates
-    from proxy.http.exception import HttpProtocolException
-    handler = case.get('handler', 'http')
-    threaded = bool(case.get('threaded'))
-    flags = get_flags(case.get('max_send', 3), threaded, case.get('timeout', 10), bool(case.get('web')),
-                      case.get('static_dir'))
-    clock = sim.VClock(case.get('t0', T0) / TICK)
-    klass = tunnel_handler_klass() if handler == 'tunnel' else None
-    connect_script = [None if x is None else sim.io_error(x) for x in case.get('connect', [])]
-    steps, oracles = [], []
-    uprcvd, clrcvd = b'', b''
-    with sim.Sim(flags=flags, clock=clock, handler_klass=klass, connect_script=connect_script) as S:
-        h = S.h
-        if threaded and handler == 'http':
+class RelayDriver:
+    """one real handler (HttpProtocolHandler or a BaseTcpTunnelHandler subclass) around fake sockets, driven one
+    event at a time.  pre_step() materialises and scripts an event, post_step() records what the handler did and the
+    oracles seen at the handle_data boundary.  step() = pre_step + handle_events (through sim.Sim.step) + post_step;
+    the C20 drivers call pre_step/post_step around the real loops instead."""
+
+    def __init__(self, case, external_shutdown=False):
+        from proxy.http.parser import httpParserStates
+        self.COMPLETE = httpParserStates.COMPLETE
+        self.case = case
+        self.handler = handler = case.get('handler', 'http')
+        self.threaded = bool(case.get('threaded'))
+        flags = get_flags(case.get('max_send', 3), self.threaded, case.get('timeout', 10), bool(case.get('web')),
+                          case.get('static_dir'))
+        self.t0 = case.get('t0', T0)
+        self.clock = sim.VClock(self.t0 / TICK)
+        klass = tunnel_handler_klass() if handler == 'tunnel' else None
+        connect_script = [None if x is None else sim.io_error(x) for x in case.get('connect', [])]
+        self.S = S = sim.Sim(flags=flags, clock=self.clock, handler_klass=klass, connect_script=connect_script)
+        self.h = h = S.h
+        if external_shutdown:
+            # the caller (real Threadless._cleanup / real run()) performs shutdown()
+            def only_mark():
+                S.torn = True
+            S.teardown = only_mark
+        if self.threaded and handler == 'http':
             try:
                 h.selector.close()
             except Exception:
                 pass
             h.selector = FakeSelector(S.client, list(case.get('sel', [])) + ['pipe'])
-        cq = []                       # every piece queued for the client, in order
+        self.steps, self.oracles, self.executed = [], [], []
+        self.uprcvd, self.clrcvd = b'', b''
+        self.cq = cq = []                       # every piece queued for the client, in order
         orig_queue = h.work.queue
         def client_queue(mv):
             cq.append(bytes(mv))
             return orig_queue(mv)
         h.work.queue = client_queue
-        rec = {}
+        self.rec = rec = {}
         orig_hd = h.handle_data
+        drv = self
         def handle_data(data):
             u = _up_conn(h, handler)
             rec.update(called=True, data=bytes(data), cq0=len(cq), up_before=u is not None,
                        ub0=len(u.buffer) if u is not None else 0,
-                       complete_before=(h.request.state == httpParserStates.COMPLETE))
+                       complete_before=(h.request.state == drv.COMPLETE))
             def snap():
                 u1 = _up_conn(h, handler)
                 rec['newc'] = cq[rec['cq0']:]
@@ -295,119 +308,146 @@ def run_relay(case):
             snap()
             return r
         h.handle_data = handle_data
+        self.final_res = 0
+        self.client_plan = list(case.get('client_plan', []))
+        self.up_plan = list(case.get('up_plan', []))
+        self._cur = None
 
-        final_res = 0
-        executed = []
-        client_plan = list(case.get('client_plan', []))
-        up_plan = list(case.get('up_plan', []))
-        for ev0 in case['events']:
-            # materialise the event: readable descriptors take the next piece of the planned stream (if the
-            # piece is not consumed in this step -- descriptor not registered -- it goes back to the plan,
-            # so each direction is a gap-free byte stream)
-            ev = dict(ev0)
-            ev['r'] = list(ev0.get('r', ()))
-            took_c = took_u = False
-            if ev0.get('cr') and 'c_recv' not in ev0 and client_plan:
-                ev['c_recv'] = client_plan.pop(0); took_c = True
-                ev['r'].append('client')
-            if ev0.get('ur') and 'u_recv' not in ev0 and up_plan and S.upstreams:
-                ev['u_recv'] = up_plan.pop(0); took_u = True
-                ev['r'].append('up0')
-            executed.append(ev)
-            clock.t = ev['now'] / TICK
-            names, _ = S.interest()
-            rec.clear()
-            # script the outcome of every I/O call of this step
-            S.client.inq[:] = [py_recv(ev['c_recv'])] if ev.get('c_recv') is not None else []
-            S.client.send_script[:] = [py_outcome(ev['c_send'])] if ev.get('c_send') is not None else []
-            up = S.upstreams[0] if S.upstreams else None
-            if up is not None:
-                up.inq[:] = [py_recv(ev['u_recv'])] if ev.get('u_recv') is not None else []
-                up.send_script[:] = [py_outcome(ev['u_send'])] if ev.get('u_send') is not None else []
-            x = S.step(ev.get('r', ()), ev.get('w', ()))
-            res = 0 if x == 'ok' else 1 if x == 'teardown' else 2
-            # what was consumed
-            if up is not None and isinstance(ev.get('u_recv'), (bytes, bytearray)) and ev['u_recv'] and not up.inq:
-                uprcvd += bytes(ev['u_recv'])          # the scripted piece was taken by a recv() call
-            c_taken = ev.get('c_recv') is not None and not S.client.inq
-            u_taken = up is not None and ev.get('u_recv') is not None and not up.inq
-            if took_c and S.client.inq:
-                client_plan.insert(0, ev['c_recv'])
-            if took_u and up is not None and up.inq:
-                up_plan.insert(0, ev['u_recv'])
-            for s_ in [S.client] + S.upstreams:
-                s_.inq[:] = []
-                s_.send_script[:] = []
-            # the oracles observed at the handle_data boundary
-            orc = dict(req='inc', cdata='nothing')
-            if rec.get('called'):
-                u = _up_conn(h, handler)
-                newc, newu = rec['newc'], rec['newu']
-                if rec['up_before'] and (handler == 'tunnel' or rec['complete_before']):
-                    clrcvd += rec['data']
-                if handler == 'tunnel':
-                    if not rec['up_before']:
-                        if 'exc' in rec:
-                            orc['req'] = 'raise'
-                        elif u is not None:
-                            orc['req'] = ['proxy', True, b'']
-                        elif rec.get('ret') is True:
-                            orc['req'] = ['error', newc]
-                        elif newc:
-                            orc['req'] = ['serve', newc]
-                elif not rec['complete_before']:
-                    is_proxy = h.plugin is not None and type(h.plugin).__name__ == 'HttpProxyPlugin'
+    # -- one event
+    def pre_step(self, ev0):
+        """materialise the event: readable descriptors take the next piece of the planned stream (a piece that is not
+        consumed in this step -- descriptor not registered -- goes back to the plan, so each direction is a gap-free
+        byte stream); script the outcome of every I/O call of this step.  Returns (readable names, writable names)."""
+        S = self.S
+        ev = dict(ev0)
+        ev['r'] = list(ev0.get('r', ()))
+        took_c = took_u = False
+        if ev0.get('cr') and 'c_recv' not in ev0 and self.client_plan:
+            ev['c_recv'] = self.client_plan.pop(0); took_c = True
+            ev['r'].append('client')
+        if ev0.get('ur') and 'u_recv' not in ev0 and self.up_plan and S.upstreams:
+            ev['u_recv'] = self.up_plan.pop(0); took_u = True
+            ev['r'].append('up0')
+        self.executed.append(ev)
+        self.clock.t = ev['now'] / TICK
+        names, _ = S.interest()
+        self.rec.clear()
+        S.client.inq[:] = [py_recv(ev['c_recv'])] if ev.get('c_recv') is not None else []
+        S.client.send_script[:] = [py_outcome(ev['c_send'])] if ev.get('c_send') is not None else []
+        up = S.upstreams[0] if S.upstreams else None
+        if up is not None:
+            up.inq[:] = [py_recv(ev['u_recv'])] if ev.get('u_recv') is not None else []
+            up.send_script[:] = [py_outcome(ev['u_send'])] if ev.get('u_send') is not None else []
+        self._cur = (ev, names, up, took_c, took_u)
+        return ev.get('r', ()), ev.get('w', ())
+
+    def post_step(self, res):
+        S, h, handler, rec, cq = self.S, self.h, self.handler, self.rec, self.cq
+        ev, names, up, took_c, took_u = self._cur
+        self._cur = None
+        if up is not None and isinstance(ev.get('u_recv'), (bytes, bytearray)) and ev['u_recv'] and not up.inq:
+            self.uprcvd += bytes(ev['u_recv'])          # the scripted piece was taken by a recv() call
+        c_taken = ev.get('c_recv') is not None and not S.client.inq
+        u_taken = up is not None and ev.get('u_recv') is not None and not up.inq
+        if took_c and S.client.inq:
+            self.client_plan.insert(0, ev['c_recv'])
+        if took_u and up is not None and up.inq:
+            self.up_plan.insert(0, ev['u_recv'])
+        for s_ in [S.client] + S.upstreams:
+            s_.inq[:] = []
+            s_.send_script[:] = []
+        # the oracles observed at the handle_data boundary
+        orc = dict(req='inc', cdata='nothing')
+        if rec.get('called'):
+            u = _up_conn(h, handler)
+            newc, newu = rec['newc'], rec['newu']
+            if rec['up_before'] and (handler == 'tunnel' or rec['complete_before']):
+                self.clrcvd += rec['data']
+            if handler == 'tunnel':
+                if not rec['up_before']:
                     if 'exc' in rec:
                         orc['req'] = 'raise'
-                    elif is_proxy and u is not None and rec.get('ret') is not True:
-                        orc['req'] = ['proxy', bool(h.request.is_https_tunnel), b''.join(newu)]
+                    elif u is not None:
+                        orc['req'] = ['proxy', True, b'']
                     elif rec.get('ret') is True:
                         orc['req'] = ['error', newc]
-                    elif h.request.state == httpParserStates.COMPLETE:
+                    elif newc:
                         orc['req'] = ['serve', newc]
-                    elif newc:
-                        orc['req'] = ['serve', newc]      # cannot happen; would show up as a mismatch
-                else:
-                    is_proxy = h.plugin is not None and type(h.plugin).__name__ == 'HttpProxyPlugin'
-                    if 'exc' in rec:
-                        orc['cdata'] = 'raise'
-                    elif rec.get('ret') is True:
-                        orc['cdata'] = ['proto', newc]
-                    elif is_proxy and rec['up_before'] and newu and not h.request.is_https_tunnel:
-                        pr = getattr(h.plugin, 'pipeline_request', None)
-                        orc['cdata'] = ['forward', list(newu), bool(pr is not None and pr.is_connection_upgrade)]
-                    elif newc:
-                        orc['cdata'] = ['reply', newc]
-            oracles.append(orc)
-            u = _up_conn_any(S, h, handler)
-            probe = ev.get('probe', ev['now'])
-            inactive = None
-            if handler == 'http':
-                clock.t = probe / TICK
-                inactive = bool(h.is_inactive())
-                clock.t = ev['now'] / TICK
-            steps.append(dict(int=int_code(names), res=res, csent=len(S.client.out),
-                              usent=len(S.upstreams[0].out) if S.upstreams else 0,
-                              cpend=sum(len(b) for b in h.work.buffer),
-                              upend=sum(len(b) for b in u.buffer) if u is not None else 0,
-                              la=round(getattr(h, 'last_activity', case.get('t0', T0) / TICK) * TICK),
-                              inactive=inactive, uprcvd_len=len(uprcvd), clrcvd_len=len(clrcvd),
-                              c_taken=c_taken, u_taken=u_taken,
-                              established=bool(S.upstreams)))
-            final_res = res
-            if res:
-                break
+            elif not rec['complete_before']:
+                is_proxy = h.plugin is not None and type(h.plugin).__name__ == 'HttpProxyPlugin'
+                if 'exc' in rec:
+                    orc['req'] = 'raise'
+                elif is_proxy and u is not None and rec.get('ret') is not True:
+                    orc['req'] = ['proxy', bool(h.request.is_https_tunnel), b''.join(newu)]
+                elif rec.get('ret') is True:
+                    orc['req'] = ['error', newc]
+                elif h.request.state == self.COMPLETE:
+                    orc['req'] = ['serve', newc]
+                elif newc:
+                    orc['req'] = ['serve', newc]      # cannot happen; would show up as a mismatch
+            else:
+                is_proxy = h.plugin is not None and type(h.plugin).__name__ == 'HttpProxyPlugin'
+                if 'exc' in rec:
+                    orc['cdata'] = 'raise'
+                elif rec.get('ret') is True:
+                    orc['cdata'] = ['proto', newc]
+                elif is_proxy and rec['up_before'] and newu and not h.request.is_https_tunnel:
+                    pr = getattr(h.plugin, 'pipeline_request', None)
+                    orc['cdata'] = ['forward', list(newu), bool(pr is not None and pr.is_connection_upgrade)]
+                elif newc:
+                    orc['cdata'] = ['reply', newc]
+        self.oracles.append(orc)
         u = _up_conn_any(S, h, handler)
-        fin = dict(res=final_res, cout=S.client.out, uout=S.upstreams[0].out if S.upstreams else b'',
+        probe = ev.get('probe', ev['now'])
+        inactive = None
+        if handler == 'http':
+            saved = self.clock.t
+            self.clock.t = probe / TICK
+            inactive = bool(h.is_inactive())
+            self.clock.t = saved
+        self.steps.append(dict(int=int_code(names), res=res, csent=len(S.client.out),
+                               usent=len(S.upstreams[0].out) if S.upstreams else 0,
+                               cpend=sum(len(b) for b in h.work.buffer),
+                               upend=sum(len(b) for b in u.buffer) if u is not None else 0,
+                               la=round(getattr(h, 'last_activity', self.t0 / TICK) * TICK),
+                               inactive=inactive, uprcvd_len=len(self.uprcvd), clrcvd_len=len(self.clrcvd),
+                               c_taken=c_taken, u_taken=u_taken,
+                               established=bool(S.upstreams)))
+        self.final_res = res
+        return res
+
+    def step(self, ev0):
+        r, w = self.pre_step(ev0)
+        x = self.S.step(r, w)
+        return self.post_step(0 if x == 'ok' else 1 if x == 'teardown' else 2)
+
+    def finish(self):
+        S, h = self.S, self.h
+        u = _up_conn_any(S, h, self.handler)
+        fin = dict(res=self.final_res, cout=S.client.out, uout=S.upstreams[0].out if S.upstreams else b'',
                    cpend=b''.join(bytes(b) for b in h.work.buffer),
                    upend=b''.join(bytes(b) for b in u.buffer) if u is not None else b'',
-                   uprcvd=uprcvd, clrcvd=clrcvd, cclosed=bool(S.client.closed),
+                   uprcvd=self.uprcvd, clrcvd=self.clrcvd, cclosed=bool(S.client.closed),
                    uclosed=0 if not S.upstreams else (2 if S.upstreams[0].closed else 1),
-                   int=int_code(S.interest()[0]) if not final_res else 0,
+                   int=int_code(S.interest()[0]) if not (self.final_res or S.client.closed) else 0,
                    shutdown_exc=getattr(S, 'shutdown_exc', None) and type(S.shutdown_exc).__name__,
-                   trace=list(S.trace), queued=b''.join(cq),
+                   trace=list(S.trace), queued=b''.join(self.cq),
                    client_log=[l for l in S.client.log if l[0] in ('send', 'send_err', 'close')][-40:])
-    return dict(steps=steps, oracles=oracles, fin=fin, events=executed)
+        S.close()
+        return dict(steps=self.steps, oracles=self.oracles, fin=fin, events=self.executed)
+
+
+def run_relay(case):
+    """drive one real handler through case['events']; returns observations + the oracles seen at handle_data"""
+    d = RelayDriver(case)
+    try:
+        for ev0 in case['events']:
+            if d.step(ev0):
+                break
+    except BaseException:
+        d.S.close()
+        raise
+    return d.finish()
 
 
 def _up_conn_any(S, h, handler):
@@ -667,3 +707,254 @@ def net_imports():
     """Require line of the generated case files; the tunnel acknowledgement packet (read from /repo) is named once"""
     return ('From PM Require Import Lib.Bytes Net.Conn Net.ConnCases Net.Handler Net.Tunnel Net.RelayCases.\n'
             'From Coq Require Import ZArith.\nOpen Scope N_scope.\nDefinition ACK : bytes := %s.' % C.coq_bytes(ack_packet()))
+
+
+# ------------------------------------------------------------------------------------------------
+# C20: the real loops around one simulated connection
+def reaper_constants():
+    """(select timeout + wait timeout, cleanup timeout) in microseconds, read from /repo"""
+    from proxy.common.constants import (DEFAULT_SELECTOR_SELECT_TIMEOUT, DEFAULT_WAIT_FOR_TASKS_TIMEOUT,
+                                        DEFAULT_INACTIVE_CONN_CLEANUP_TIMEOUT)
+    from fractions import Fraction
+    period = Fraction(str(DEFAULT_SELECTOR_SELECT_TIMEOUT)) + Fraction(str(DEFAULT_WAIT_FOR_TASKS_TIMEOUT))
+    cleanup = Fraction(str(DEFAULT_INACTIVE_CONN_CLEANUP_TIMEOUT))
+    pu, cu = period * 1000000, cleanup * 1000000
+    assert pu.denominator == 1 and cu.denominator == 1, 'constants are not whole microseconds'
+    return int(pu), int(cu)
+
+
+def run_reaper_threadless(case):
+    """the REAL Threadless._run_forever / _cleanup_inactive / _cleanup around one simulated work; only _run_once
+    (selector + task dispatch, the business of C05/C10) is replaced by the scripted iteration."""
+    import asyncio, threading
+    from proxy.core.work.threadless import Threadless
+    d = RelayDriver(case, external_shutdown=True)
+    iters = case['iters']
+    WID = 4242
+    log = []
+    st = dict(i=0)
+
+    class OneWork(Threadless):
+        @property
+        def loop(self):
+            return None
+
+        def receive_from_work_queue(self):
+            return False
+
+        def work_queue_fileno(self):
+            return None
+
+        def work(self, *args):
+            pass
+
+        async def _run_once(self):
+            i = st['i']
+            if i >= len(iters):
+                return True
+            st['i'] += 1
+            it = iters[i]
+            cur = dict(swept=False, fate=0, ev_index=None)
+            log.append(cur)
+            if it.get('ev') is not None and WID in self.works:
+                r, w = d.pre_step(it['ev'])
+                cur['ev_index'] = len(d.executed) - 1
+                x = d.S.step(r, w)
+                res = d.post_step(0 if x == 'ok' else 1 if x == 'teardown' else 2)
+                if res:
+                    self._cleanup(WID)
+                    cur['fate'] = 1
+            d.clock.t = it['t'] / TICK
+            return False
+
+        def _cleanup_inactive(self):
+            cur = log[-1]
+            cur['swept'] = True
+            before = WID in self.works
+            super()._cleanup_inactive()
+            if before and WID not in self.works:
+                cur['fate'] = 2
+
+    try:
+        tl = OneWork('1', None, d.S.flags)
+        tl.running = threading.Event()
+        tl.works[WID] = d.h
+        loop = asyncio.new_event_loop()
+        try:
+            loop.run_until_complete(tl._run_forever())
+        finally:
+            loop.close()
+        # a fate, once reached, stays
+        f = 0
+        for cur in log:
+            f = cur['fate'] or f
+            cur['fate'] = f
+        wait_timeout, cleanup_timeout = tl.wait_timeout, tl.cleanup_inactive_timeout
+    except BaseException:
+        d.S.close()
+        raise
+    out = d.finish()
+    out['log'] = log
+    out['alive'] = WID in tl.works
+    return out
+
+
+class LoopSelector:
+    """self.selector of a threaded-mode handler for the WHOLE life of run(): main loop (one scripted iteration per
+    select() call) and then shutdown()._flush() (scripted send outcomes)."""
+    def __init__(self, d, iters, flush_script, hev):
+        import selectors
+        self.d, self.iters, self.flush = d, iters, list(flush_script) + ['pipe']
+        self.hev = hev               # results of handle_events, filled by the wrapper
+        self.i = 0
+        self.inflight = False
+        self.phase = 'main'
+        self.reg = {}
+        self.n_main = 0
+        self.log = []
+
+    def register(self, fileobj, events, data=None):
+        if not isinstance(fileobj, int):
+            self._finish_inflight()
+            self.phase = 'flush'
+            return
+        self.reg[fileobj] = events
+
+    def unregister(self, fileobj):
+        if isinstance(fileobj, int):
+            self.reg.pop(fileobj, None)
+            # handle_events of this iteration is over: the clock moves on to the next is_inactive() check
+            if self.i < len(self.iters):
+                self.d.clock.t = self.iters[self.i]['t'] / TICK
+
+    def close(self):
+        pass
+
+    def _finish_inflight(self):
+        if self.inflight:
+            self.inflight = False
+            r = self.hev[-1] if self.hev else 0
+            self.d.post_step(r)
+
+    def select(self, timeout=None):
+        import selectors
+        if self.phase == 'flush':
+            if not self.flush:
+                raise BrokenPipeError(errno.EPIPE, 'harness: flush script exhausted')
+            item = self.flush.pop(0)
+            if item is None:
+                return []
+            self.d.S.client.send_script[:] = [py_outcome(item)]
+            sock = self.d.S.client
+            return [(selectors.SelectorKey(sock, sock.fd, selectors.EVENT_WRITE, None), selectors.EVENT_WRITE)]
+        self._finish_inflight()
+        if self.i >= len(self.iters):
+            raise KeyboardInterrupt()         # the harness ends the loop: run() goes to its finally clause
+        it = self.iters[self.i]
+        self.i += 1
+        self.n_main += 1
+        ev0 = it.get('ev') or dict(now=it['t'], r=[], w=[], probe=it['t'])
+        r, w = self.d.pre_step(ev0)
+        self.inflight = True
+        S = self.d.S
+        socks = S.socks()
+        out = []
+        for name in set(list(r) + list(w)):
+            s_ = socks.get(name)
+            if s_ is None or s_.closed or s_.fd not in self.reg:
+                continue
+            mask = 0
+            if name in r and self.reg[s_.fd] & selectors.EVENT_READ:
+                mask |= selectors.EVENT_READ
+            if name in w and self.reg[s_.fd] & selectors.EVENT_WRITE:
+                mask |= selectors.EVENT_WRITE
+            if mask:
+                out.append((selectors.SelectorKey(s_.fd, s_.fd, self.reg[s_.fd], None), mask))
+        return out
+
+
+def run_reaper_threaded(case):
+    """the REAL HttpProtocolHandler.run() (threaded mode) with a scripted selector"""
+    case = dict(case, threaded=True)
+    d = RelayDriver(case, external_shutdown=True)
+    h = d.h
+    iters = case['iters']
+    hev, inact = [], []
+    try:
+        sel = LoopSelector(d, iters, case.get('sel', []), hev)
+        h.selector = sel
+        orig_he = h.handle_events
+        async def handle_events(readables, writables):
+            try:
+                r = await orig_he(readables, writables)
+            except BaseException:
+                hev.append(2)
+                raise
+            hev.append(1 if r else 0)
+            return r
+        h.handle_events = handle_events
+        orig_in = h.is_inactive
+        def is_inactive():
+            r = orig_in()
+            if sel.phase == 'main' and not sel.inflight:
+                inact.append(bool(r))
+            return r
+        h.is_inactive = is_inactive
+        if iters:
+            d.clock.t = iters[0]['t'] / TICK
+        h.run()
+        sel._finish_inflight()
+    except BaseException:
+        d.S.close()
+        raise
+    # fate after each iteration
+    fates = []
+    f = 0
+    for i in range(len(iters)):
+        if not f:
+            if i < len(inact) and inact[i]:
+                f = 2
+            elif i < len(hev) and hev[i]:
+                f = 1
+        fates.append(f)
+    d.h.is_inactive = orig_in
+    out = d.finish()
+    out['fates'] = fates
+    out['n_main'] = sel.n_main
+    out['inact'] = inact
+    out['hev'] = hev
+    return out
+
+
+def coq_reaper_case(case, out):
+    t0 = case.get('t0', T0)
+    cfg = '(mkCfg %d ACK %s %s)' % (case.get('max_send', 3), coq_Z(case.get('timeout', 10) * TICK),
+                                   C.coq_bool(case['kind'] != 'reaper-threaded'))
+    its = []
+    if case['kind'] == 'reaper-threadless':
+        for it, cur in zip(case['iters'], out['log']):
+            k = cur['ev_index']
+            e = 'None' if k is None else '(Some (%s))' % coq_event(out['events'][k], out['oracles'][k], t0)
+            its.append('(%s, %d)' % (e, it['t'] - t0))
+        for it in case['iters'][len(out['log']):]:
+            its.append('(None, %d)' % (it['t'] - t0))
+        pu, cu = reaper_constants()
+        exp = ['(%s, %d)' % (C.coq_bool(c['swept']), c['fate']) for c in out['log']]
+        return 'CReaperTL (mkTC %d %d) %s %s %s %s %s %s' % (pu, cu, cfg, coq_Z(t0), C.coq_list(its), C.coq_list(exp),
+                                                            C.coq_bytes(out['fin']['cout']), C.coq_bool(out['fin']['cclosed']))
+    # threaded: iteration i executed event i (a null event when none was scripted) as long as the loop ran
+    n_exec = len(out['events'])
+    for i, it in enumerate(case['iters']):
+        if i < n_exec and it.get('ev') is not None:
+            e = '(Some (%s))' % coq_event(out['events'][i], out['oracles'][i], t0)
+        else:
+            e = 'None'
+        its.append('(%s, %d)' % (e, it['t'] - t0))
+    sel = C.coq_list(('None' if x is None else '(Some %s)' % coq_outcome(x)) for x in list(case.get('sel', [])) + ['pipe'])
+    exp = [str(f) for f in out['fates']]
+    return 'CReaperTH %s %s %s %s %s %s %s' % (cfg, coq_Z(t0), sel, C.coq_list(its), C.coq_list(exp),
+                                              C.coq_bytes(out['fin']['cout']), C.coq_bool(out['fin']['cclosed']))
+
+
+def c20_imports():
+    return net_imports().replace('Net.RelayCases.', 'Net.RelayCases Net.Reaper Net.ReaperCases.')
